@@ -27,12 +27,13 @@ pub uninterp spec fn defmap_of<'a>(doc: &TypeSystemDocument<'a>) -> DefinitionMa
 //@ contract nitrogql_checker::type_system_checker ::fn check_type_system_document
 //@   unexternal
 //@   ret r
+//@   requires [C05.tsdoc.pre_schema_wf] crate::schema_wf(&crate::defmap_of(document).type_system)
 //@   ensures [C05.tsdoc.sound] r@.len() == 0 ==> crate::tsdoc_ok_upto(document, &crate::defmap_of(document), document.definitions@.len() as int)
 //@   ensures [C05.tsdoc.complete] crate::tsdoc_ok_upto(document, &crate::defmap_of(document), document.definitions@.len() as int) ==> r@.len() == 0
 //@   loops 1
 //@   loop 0 iter_name it
 //@   loop 0 invariant [C05.tsdoc.loop.iter] it.seq().len() == document.definitions@.len() && 0 <= it.index@ <= it.seq().len() && (forall|i: int| 0 <= i < it.seq().len() ==> *it.seq()[i] == document.definitions@[i])
-//@   loop 0 invariant [C05.tsdoc.loop.exact] definition_map == crate::defmap_of(document) && ((result@.len() == 0) <==> crate::tsdoc_ok_upto(document, &definition_map, it.index@ as int))
+//@   loop 0 invariant [C05.tsdoc.loop.exact] crate::schema_wf(&crate::defmap_of(document).type_system) && definition_map == crate::defmap_of(document) && ((result@.len() == 0) <==> crate::tsdoc_ok_upto(document, &definition_map, it.index@ as int))
 //@   loop 0 prefix let ghost len0 = result@.len(); proof { assert(*def == document.definitions@[it.index@ as int]); }
 //@   loop 0 suffix [C05.tsdoc.loop.exact#step] proof { let n = it.index@ as int; if len0 == 0 { assert((result@.len() == 0) <==> crate::tsdef_valid(document.definitions@[n], &definition_map)); } }
 //@ end
